@@ -126,9 +126,13 @@ def f_keys(tags):
     return ",".join(sorted(tags))
 
 
+def f_ident(d):
+    return dict(d)
+
+
 FUNCS = {
     f.__name__: f
-    for f in (f_is_a, f_notnone, f_upper, f_len, f_neg, f_pos, f_plus1s, f_ntags, f_keys)
+    for f in (f_is_a, f_notnone, f_upper, f_len, f_neg, f_pos, f_plus1s, f_ntags, f_keys, f_ident)
 }
 
 OPS = {"==": _op.eq, "!=": _op.ne, "<": _op.lt, "<=": _op.le, ">": _op.gt, ">=": _op.ge}
@@ -200,6 +204,12 @@ def spec(q, p):
         return _mapped(FUNCS[q[2]], v, q[3], q[4])
     if k == "tags_map":
         return _mapped(FUNCS[q[1]], p.tags, q[2], q[3])
+    if k == "tags_mapkey":  # TagQuery().map(f)[key] op rhs
+        try:
+            v = FUNCS[q[1]](p.tags)[q[2]]
+        except Exception:
+            return False
+        return _cmp(q[3], v, q[4])
     if k in ("field", "field_exists", "field_test", "field_map"):
         if q[1] not in p.fields:
             return False
@@ -289,6 +299,8 @@ def compile_q(q, mk_time):
         return OPS[q[3]](TagQuery()[q[1]].map(FUNCS[q[2]]), q[4])
     if k == "tags_map":
         return OPS[q[2]](TagQuery().map(FUNCS[q[1]]), q[3])
+    if k == "tags_mapkey":
+        return OPS[q[3]](TagQuery().map(FUNCS[q[1]])[q[2]], q[4])
     if k == "field":
         return OPS[q[2]](FieldQuery()[q[1]], q[3])
     if k == "field_exists":
